@@ -466,7 +466,7 @@ class ValueGen:
         ity = schema[item]
         if self.sw.get("xobj_input") and rng.random() < (0.2 if top else 0.08):
             cands = self.avail(t)
-            if ity["k"] == "sc" and rng.random() < 0.5:
+            if ity["k"] == "sc" and top and rng.random() < 0.5:
                 # array objects of other classes with the same item type and number of axes
                 for t2, ty2 in enumerate(schema):
                     if t2 != t and ty2["k"] == "array" and ty2["item"] == item and len(ty2["shape"]) == len(ty["shape"]):
